@@ -41,8 +41,15 @@ func vc08Any(tag string, depth int) (AnyValue, func(out *AnyValue, lbl string)) 
 	case 5:
 		n := vChoice(tag+"-byteslen", 3)
 		bs := vNondetBytes(tag+"-bytes", n)
+		if n == 0 && vChoice(tag+"-empty-bytes-as-pdata-builds-them", 2) == 1 {
+			bs = nil // pcommon.NewValueBytes / Value.SetEmptyBytes hold a nil slice
+		}
 		return AnyValue{Value: &AnyValue_BytesValue{BytesValue: bs}}, func(out *AnyValue, lbl string) {
 			v, ok := out.Value.(*AnyValue_BytesValue)
+			if n == 0 {
+				vAssert(ok, lbl+"/empty-bytes-value-stays-a-bytes-value")
+				return
+			}
 			vAssert(ok && len(v.BytesValue) == n, lbl+"/bytes-length-round-trips")
 			if ok && len(v.BytesValue) == n {
 				for i := 0; i < n; i++ {
